@@ -68,6 +68,8 @@ func (v *PointerSchema) process(ctx *p.SchemaCtx) {
 			return
 		}
 		ctx.Data = val
+		// the factory can only be consumed once (it reads the request body). The schema below must get its result, not the factory again
+		subCtx.Data = val
 	}
 	// End of messy code
 
